@@ -247,7 +247,10 @@ def inproc_stream(ctx, orc, progs, stats):
             if "x" in fl:
                 continue
             if core_of(a) != core_of(base):
-                kind = "history" if "p" in fl or (fl == "" and fi > 0) else "dirty-context" if "d" in fl else "tracking" if "t" in fl else "reporting-option"
+                # every line runs in one harness process after the lines before it: a difference from the first run of
+                # the program is due to the configuration of this line or to what earlier assemblies left in the process
+                kind = "history" if "p" in fl or (fl == "" and fi > 0) else "dirty-context" if "d" in fl else \
+                    "tracking" if "t" in fl else "reporting-option-or-history"
                 if kind == "tracking":
                     stats["tracking_perturbed"] = stats.get("tracking_perturbed", 0) + 1
                     continue
@@ -482,6 +485,23 @@ def util_stream(ctx, orc, stats):
                                     "expected": ans[i][:300], "observed": ans[i + 2][:300], "what": "assemble_code() twice differs"})
 
 
+def static_stream(ctx, orc, stats):
+    """the static `depth` of include_parse(): 40 assemblies that fail inside an include file, then a valid one with
+    nested includes — in ONE harness process — against the valid one in a fresh process"""
+    bad = prog_line("", 0, '.msp430\n.include "a.inc"\n', files=[("a.inc", "  .db 1\n  bogus_mnemonic r5\n")])
+    deep = '.msp430\n.include "a.inc"\n  .db 9\n'
+    good = prog_line("", 0, deep, files=[("a.inc", '  .db 1\n.include "b.inc"\n'), ("b.inc", '  .db 2\n.include "c.inc"\n'),
+                                         ("c.inc", "  .db 3\n")])
+    fresh = nvlib.run_lines(ctx.harness, [good], shards=1)
+    after = nvlib.run_lines(ctx.harness, [bad] * 40 + [good], shards=1)
+    orc["cases"] += 42
+    stats["static_history_lines"] = 42
+    if core_of(fresh[0]) != core_of(after[-1]) or "st=0" not in fresh[0]:
+        orc["failures"].append({"sig": "C13:static-state:include-depth", "input": deep, "expected": core_of(fresh[0])[:300],
+                                "observed": core_of(after[-1])[:300],
+                                "what": "an assembly after 40 assemblies that failed inside an include differs from the same assembly in a fresh process"})
+
+
 def valgrind_stream(ctx, orc, progs, stats):
     if ctx.quick() or not shutil.which("valgrind"):
         return
@@ -531,6 +551,7 @@ def oracle(ctx, orc, focus=None):
     inproc_stream(ctx, orc, progs, stats)
     process_stream(ctx, orc, progs, stats)
     util_stream(ctx, orc, stats)
+    static_stream(ctx, orc, stats)
     valgrind_stream(ctx, orc, progs, stats)
     by = {}
     for label, _, _, _ in progs:
